@@ -49,7 +49,6 @@ import os
 from hypothesis import strategies as st
 
 import nfc.llcp
-import nfc.llcp.pdu as pdu
 
 from vlib import vsched
 from vlib.engine import HarnessError, Leg, Violation, unexpected
@@ -490,7 +489,6 @@ def op_connect(w, s, how, val):
 def finish_connect(w, s, box, dest):
     s.busy = None
     peer = other(s.side)
-    by_name = isinstance(dest, str)
     view = w.views.pop((s.side, s.group.addr), None) if s.group else None
     if view is None:
         # the CONNECT PDU never left (e.g. no address for the client)
@@ -704,7 +702,6 @@ def finish_resolve(w, box, side, name):
 def op_close(w, s):
     if not s.open or s.busy is not None:
         return
-    tab = w.table[s.side]
     if NAME_CLASS in EXCLUDE_CLASSES and s.owner and s.group is not None \
             and s.group.name is not None:
         w.count("excluded:" + NAME_CLASS)
